@@ -70,9 +70,27 @@ pub fn write_tree(files: &Tree) {
     }
 }
 
+thread_local! {
+    static TREE_LINKS: std::cell::RefCell<Vec<(String, String)>> = const { std::cell::RefCell::new(Vec::new()) };
+}
+
+/// Symbolic links (link, target) that belong to every tree of the current scenario.
+pub fn set_links(links: &[(String, String)]) {
+    TREE_LINKS.with(|l| *l.borrow_mut() = links.to_vec());
+}
+
 pub fn reset_tree(files: &Tree) {
     clear_tree();
     write_tree(files);
+    TREE_LINKS.with(|l| {
+        for (link, target) in l.borrow().iter() {
+            let _ = std::fs::create_dir_all(target);
+            if let Some(parent) = Path::new(link).parent() {
+                let _ = std::fs::create_dir_all(parent);
+            }
+            std::os::unix::fs::symlink(target, link).expect("symlink");
+        }
+    });
 }
 
 pub fn snapshot() -> Tree {
@@ -82,6 +100,10 @@ pub fn snapshot() -> Tree {
         for e in rd.flatten() {
             let p = e.path();
             let Ok(ft) = e.file_type() else { continue };
+            if ft.is_symlink() {
+                // files are recorded under their physical path only
+                continue;
+            }
             if ft.is_dir() {
                 rec(&p, out);
             } else {
